@@ -48,6 +48,25 @@ def param_mutable(f, p):
     return True
 
 
+SHALLOW = 'shallow:'
+SHALLOW_COPY_FUNCS = {'builtins.dict', 'builtins.list', 'builtins.tuple', 'builtins.sorted', 'copy.copy', 'builtins.reversed'}
+
+
+def _shallow(names):
+    """the result is a new container whose elements are still the argument's elements"""
+    return {n if n.startswith(SHALLOW) else SHALLOW + n for n in names}
+
+
+def _elements(names):
+    """taking an element of (or iterating) a shallow copy reaches the argument's own objects again"""
+    return {n[len(SHALLOW):] if n.startswith(SHALLOW) else n for n in names}
+
+
+def _direct(names):
+    """aliases through which a write changes the argument itself (a write into a shallow copy does not)"""
+    return {n for n in names if not n.startswith(SHALLOW)}
+
+
 class Effects:
     """per function: which parameters may be written (transitively through dsw callees)"""
 
@@ -115,16 +134,21 @@ class Effects:
                 out = set()
                 ra = self.ret_alias.get(callee.fq, set())
                 for p in ra:
-                    a = self._arg_for(callee, value, p)
+                    sh = p.startswith(SHALLOW)
+                    a = self._arg_for(callee, value, p[len(SHALLOW):] if sh else p)
                     if a is not None:
-                        out |= self.alias_of_expr(f, a, node_id, depth)
+                        got = self.alias_of_expr(f, a, node_id, depth)
+                        out |= _shallow(got) if sh else got
                 return out
-            if q in PURE_FUNCS and q not in ('builtins.zip', 'builtins.enumerate'):
+            if q in PURE_FUNCS and q not in ('builtins.zip', 'builtins.enumerate') and q not in SHALLOW_COPY_FUNCS:
                 return set()
         return self.alias_of_expr(f, value, node_id, depth)
 
     def alias_of_iter(self, f, it, node_id, depth):
         """elements yielded by iterating expression `it`"""
+        return _elements(self._alias_of_iter(f, it, node_id, depth))
+
+    def _alias_of_iter(self, f, it, node_id, depth):
         if isinstance(it, ast.Call):
             q, callee = self.ctx.resolve_call(f, it)
             if q in ('builtins.enumerate', 'builtins.zip', 'builtins.reversed', 'builtins.iter', 'builtins.list',
@@ -154,6 +178,8 @@ class Effects:
             if not base:
                 return set()
             s = e.slice
+            if not isinstance(s, ast.Slice):
+                base = _elements(base)
             # fancy / boolean indexing of an array copies; everything else may share storage
             if isinstance(s, ast.Compare):
                 return set()
@@ -181,16 +207,28 @@ class Effects:
             if callee is not None:
                 out = set()
                 for p in self.ret_alias.get(callee.fq, set()):
-                    a = self._arg_for(callee, e, p)
+                    sh = p.startswith(SHALLOW)
+                    a = self._arg_for(callee, e, p[len(SHALLOW):] if sh else p)
                     if a is not None:
-                        out |= self.alias_of_expr(f, a, node_id, depth + 1)
+                        got = self.alias_of_expr(f, a, node_id, depth + 1)
+                        out |= _shallow(got) if sh else got
                 return out
             if isinstance(e.func, ast.Attribute):
                 if e.func.attr in VIEW_METHODS:
-                    return self.alias_of_expr(f, e.func.value, node_id, depth + 1)
+                    got = self.alias_of_expr(f, e.func.value, node_id, depth + 1)
+                    return _elements(got) if e.func.attr == 'get' else got
+                if e.func.attr == 'copy' and not e.args:
+                    # dict.copy() / list.copy() share their elements with the original; ndarray.copy() does not
+                    got = self.alias_of_expr(f, e.func.value, node_id, depth + 1)
+                    return _shallow({p for p in got if self._container_of_objects(f, p)})
+                if e.func.attr in ('pop', 'popitem', 'setdefault') :
+                    return _elements(self.alias_of_expr(f, e.func.value, node_id, depth + 1))
                 return set()
             if q in VIEW_FUNCS and e.args:
                 return self.alias_of_expr(f, e.args[0], node_id, depth + 1)
+            if q in SHALLOW_COPY_FUNCS and len(e.args) == 1:
+                got = self.alias_of_expr(f, e.args[0], node_id, depth + 1)
+                return _shallow({p for p in got if self._container_of_objects(f, p)})
             return set()
         if isinstance(e, ast.IfExp):
             return self.alias_of_expr(f, e.body, node_id, depth + 1) | self.alias_of_expr(f, e.orelse, node_id, depth + 1)
@@ -207,6 +245,18 @@ class Effects:
                 out |= self.alias_of_expr(f, x, node_id, depth + 1)
             return out
         return set()       # constants, arithmetic, comparisons, comprehensions, f-strings: fresh
+
+    @staticmethod
+    def _container_of_objects(f, p):
+        """can the elements of parameter p be mutable objects (dict of lists, list of lists / arrays, 2-d array rows)?"""
+        p = p[len(SHALLOW):] if p.startswith(SHALLOW) else p
+        if p not in f.params:
+            return True
+        doc = ast.get_docstring(f.node) or ''
+        m = re.search(r':type %s:\s*(.+)' % re.escape(p), doc)
+        if m:
+            return any(w in m.group(1) for w in ('dict', 'list', 'ndarray', 'array', 'set', 'tuple'))
+        return param_mutable(f, p)
 
     def _is_index_array(self, f, name, node_id):
         t = f.var(name, node_id)
@@ -232,7 +282,7 @@ class Effects:
         ctx = self.ctx
 
         def add(names, nd, text):
-            for p in sorted(names):
+            for p in sorted(_direct(names)):
                 writes.append((p, nd, text))
         for nd in f.nodes:
             st = nd.stmt
@@ -248,7 +298,7 @@ class Effects:
                         if tgt.attr in MUTATING_METHODS:
                             add(self.alias_of_expr(f, tgt.value, nd.id), nd, 'mutating method .%s()' % tgt.attr)
                 elif d.kind == 'aug' and isinstance(st, ast.AugAssign):
-                    al = {p for p in self.alias_of_name(f, d.name, nd.id) if param_mutable(f, p)}
+                    al = {p for p in _direct(self.alias_of_name(f, d.name, nd.id)) if param_mutable(f, p)}
                     add(al, nd, 'augmented assignment %s (in place on arrays and lists)' % ast.unparse(st)[:40])
             if isinstance(st, ast.Delete):
                 for t in st.targets:
@@ -282,13 +332,13 @@ class Effects:
                         m = c.func.attr
                         if m in PURE_METHODS or m in MUTATING_METHODS or m in ('shuffle', 'seed', 'random', 'add_edge'):
                             continue
-                        recv = self.alias_of_expr(f, c.func.value, nd.id)
+                        recv = _direct(self.alias_of_expr(f, c.func.value, nd.id))
                         if recv:
                             self.unknown.append((f, nd, 'method .%s() on an alias of parameter %s' % (m, sorted(recv))))
                         continue
                     for a in list(c.args) + [k.value for k in c.keywords]:
                         al = self.alias_of_expr(f, a.value if isinstance(a, ast.Starred) else a, nd.id)
-                        al = {p for p in al if param_mutable(f, p)}
+                        al = {p for p in _elements(al) if param_mutable(f, p)}
                         if al and q and not q.startswith('?.') and ctx.p.resolve_func(q) is None and \
                                 not (q + '.__init__' in ctx.p.funcs or q + '.__call__' in ctx.p.funcs):
                             self.unknown.append((f, nd, 'parameter alias %s passed to external %s' % (sorted(al), q)))
@@ -313,6 +363,14 @@ def control(items, table):
     items = [int(i) for i in items]
     items.append(3)
     return fresh
+
+
+def control2(table):
+    mine = dict(table)
+    del mine[0]
+    for key, row in mine.items():
+        row.remove(key)
+    return mine
 '''
 
 
@@ -330,14 +388,16 @@ def positive_control():
     m.project = p
     m._scan()
     p.modules = {'ctl.m': m}
-    p.funcs = {'ctl.m.control': m.funcs['control']}
+    p.funcs = {'ctl.m.control': m.funcs['control'], 'ctl.m.control2': m.funcs['control2']}
     p.exports = {}
     run = Run('control')
     ctx = Ctx(p, run)
     eff = Effects(ctx)
     ws = eff.writes['ctl.m.control']
     got = sorted((pn, nd.lineno) for pn, nd, t in ws)
-    return got == [('items', 5), ('table', 6)], got
+    got2 = sorted((pn, nd.lineno) for pn, nd, t in eff.writes['ctl.m.control2'])
+    # control2: deleting from the shallow copy is no write, removing from a shared row is
+    return got == [('items', 5), ('table', 6)] and got2 == [('table', 18)], got + got2
 
 
 def r_pure(ctx, fqs=None, only_params=None, floor=0):
